@@ -10,6 +10,7 @@ pub mod c05;
 pub mod c06;
 pub mod c07;
 pub mod c08;
+pub mod c09;
 pub mod c15;
 pub mod c16;
 pub mod c17;
@@ -26,6 +27,7 @@ pub fn cases(prop: &str, tier: Tier) -> u64 {
         "C06" => c06::cases(tier),
         "C07" => c07::cases(tier),
         "C08" => c08::cases(tier),
+        "C09" => c09::cases(tier),
         "C15" => c15::cases(tier),
         "C16" => c16::cases(tier),
         "C17" => c17::cases(tier),
@@ -44,6 +46,7 @@ pub fn run_case(prop: &str, env: &Env, ctx: &mut Ctx, idx: u64) {
         "C06" => c06::run_case(env, ctx, idx),
         "C07" => c07::run_case(env, ctx, idx),
         "C08" => c08::run_case(env, ctx, idx),
+        "C09" => c09::run_case(env, ctx, idx),
         "C15" => c15::run_case(env, ctx, idx),
         "C16" => c16::run_case(env, ctx, idx),
         "C17" => c17::run_case(env, ctx, idx),
